@@ -29,6 +29,10 @@ func genGates(r *rng, index int) *Spec {
 	}
 	// maintenance
 	maint := []string{"none", "none", "none", "full", "light"}[r.intn(5)]
+	if cn := index % 11; (cn == 6 || cn == 10) && c.ResetupCrashedHosts {
+		// the crash-recovery cause of failover is judged at another place than the plain one
+		maint = []string{"none", "light", "light", "full"}[r.intn(4)]
+	}
 	if maint != "none" {
 		sp.Timeline = append(sp.Timeline, TLEvent{AtMs: T0 - int64(r.pickInt(300, 3000, 8000)), Kind: "cli_maint_on", Host: ha[len(ha)-1], Arg: maint})
 	}
